@@ -344,7 +344,8 @@ def run_sup_ops(ops):
     where the RPC interface would make them; each 'pass' is one pass of the
     real loop of the real runforever with options.mood set just before it.
 
-    Returns [(result, [(class name, payload)])] for the ops that were executed
+    Returns ([(result, [(class name, payload)])], stray) for the ops that were executed;
+    stray = notifications raised where the script performs no operation
     (the loop ends with ExitNow when it is asked to stop and nothing is left
     running; later ops are then not executed)."""
     log = []
@@ -408,6 +409,7 @@ def run_sup_ops(ops):
 
     # attribute the events to the operations, by position in the log
     out = []
+    stray = []          # notifications seen where the script performs no operation
     cur = []
     tops = 0
     nscripted = len([o for o in ops if o[0] == 'pass'])
@@ -416,9 +418,10 @@ def run_sup_ops(ops):
     for ent in log:
         k = ent[0]
         if k == 'event':
-            if where in ('pre', 'polled'):
-                raise AssertionError('notification outside any operation: %r' % (ent[1],))
-            cur.append(ent[1])
+            if where in ('pre', 'polled', 'end'):
+                stray.append(ent[1])
+            else:
+                cur.append(ent[1])
         elif k == 'op':
             if where not in ('pre', 'polled'):
                 raise AssertionError('log shape')
@@ -441,14 +444,13 @@ def run_sup_ops(ops):
             out.append((None, render_events(cur)))
             where, cur = 'polled', []
         elif k == 'scriptend':
-            # the script ran out inside the poll() of one more, unscripted pass
-            if where != 'pass' or cur:
-                raise AssertionError('log shape at the end of the script')
-            where = 'end'
+            # the script ran out inside the poll() of one more, unscripted pass:
+            # nothing changed in it, so it must not have notified anything
+            stray.extend(cur)
+            where, cur = 'end', []
     if where == 'pass' and tops > nscripted:
         # one more, unscripted pass began after the script was used up (and ended with ExitNow)
-        if cur:
-            raise AssertionError('log shape at the end of the script')
+        stray.extend(cur)
     elif where in ('entry', 'pass'):
         out.append((None, render_events(cur)))    # ended by ExitNow (or no pass at all)
-    return out
+    return out, render_events(stray)
